@@ -10,6 +10,7 @@ import (
 	"fmt"
 	"math/rand"
 	"sync"
+	"sync/atomic"
 	"time"
 
 	res "github.com/jirenius/go-res"
@@ -22,7 +23,7 @@ import (
 
 type rec = map[string]interface{}
 
-const tick = 60 * time.Millisecond
+const tick = 100 * time.Millisecond
 
 // failConn delegates to a real connection but fails chosen operations.
 type failConn struct {
@@ -138,7 +139,10 @@ func runScript(url string, id int, fail string, t0 int, script []scriptEv) (rec,
 	}
 	rc.Flush()
 	// responder: plays the script once the request arrives; deliveries fall between ticks
+	var late int32
+	respDone := make(chan struct{})
 	go func() {
+		defer close(respDone)
 		var m *nats.Msg
 		select {
 		case m = <-reqCh:
@@ -147,6 +151,7 @@ func runScript(url string, id int, fail string, t0 int, script []scriptEv) (rec,
 		}
 		start := time.Now()
 		at := time.Duration(0)
+		answered := false
 		for k, e := range script {
 			switch e[0] {
 			case "wait":
@@ -164,6 +169,13 @@ func runScript(url string, id int, fail string, t0 int, script []scriptEv) (rec,
 			target := start.Add(at + off)
 			if d := time.Until(target); d > 0 {
 				time.Sleep(d)
+			}
+			if !answered && time.Since(target) > tick/20 {
+				// the responder itself fell off the time grid (busy machine): the run is not judged
+				atomic.StoreInt32(&late, 1)
+			}
+			if e[0] == "resp" {
+				answered = true // what follows the first response is not timed (SendRequest has returned)
 			}
 			switch e[0] {
 			case "pre":
@@ -232,8 +244,12 @@ func runScript(url string, id int, fail string, t0 int, script []scriptEv) (rec,
 	for _, e := range script {
 		sc = append(sc, e)
 	}
-	return rec{"fail": fail, "t0": t0, "script": sc, "res": kind, "ext": ext, "released": subsAfter == subsBefore, "fast": elapsed < tick/2,
-		"elapsed_ticks": float64(elapsed) / float64(tick), "dbg": fmt.Sprintf("subs %d -> %d", subsBefore, subsAfter)}, nil
+	r := rec{"fail": fail, "t0": t0, "script": sc, "res": kind, "ext": ext, "released": subsAfter == subsBefore, "fast": elapsed < tick/2,
+		"elapsed_ticks": float64(elapsed) / float64(tick), "dbg": fmt.Sprintf("subs %d -> %d", subsBefore, subsAfter)}
+	if atomic.LoadInt32(&late) != 0 {
+		r["untimely"] = true
+	}
+	return r, nil
 }
 
 // expectedAt mirrors ResSendReq.Wait only to judge the timing tolerance (never the verdict).
@@ -359,7 +375,7 @@ func Run(c *core.Ctx) {
 		}
 		good = append(good, r)
 	}
-	if untimely*5 > len(jobs) {
+	if untimely*3 > len(jobs) {
 		c.Inconclusive("%d of %d runs were off the time grid (machine too busy)", untimely, len(jobs))
 	}
 	core.CheckRecords(c, "TraceSendReq", "TraceSendReq.cfg", good, nil, func(i int, r interface{}, inv string) {
